@@ -283,6 +283,9 @@ def dispatch (op : String) (args : List String) : String :=
       let t := transposeTypes p cov con
       s!"ok {showNatList "." p} {showNatList "." t.1} {showNatList "." t.2}"
     | _, _, _, _ => "bad-op"
+  | "expanddims", [axis, cov, con] => match axis.toNat?, parseNatList "." cov, parseNatList "." con with
+    | some axis, some cov, some con => s!"ok {showNatList "." (expandDimsTypes axis cov)} {showNatList "." (expandDimsTypes axis con)}"
+    | _, _, _ => "bad-op"
   | "spec.dist2", [p, q] => match parseVec p, parseVec q with
     | some p, some q => "ok " ++ showQ (Spec.dist2 p q)
     | _, _ => "bad-op"
